@@ -117,6 +117,7 @@ func Load(repo, goarch string) (*Prog, error) {
 	}
 	p.Sizes = pkgs[0].TypesSizes
 	p.IntBits = int(p.Sizes.Sizeof(types.Typ[types.Int])) * 8
+	p.computeFieldRenames()
 	return p, nil
 }
 
